@@ -109,7 +109,7 @@ def check_pass(design, seq2, refs, which, rseed, info):
         obj = top
         if key[0]:
           for part in key[0].split("."): obj = getattr(obj, part)
-        cur = int(getattr(obj, key[1]).to_bits())
+        cur = int(rtl_sim.sig_of(obj, key[1]).to_bits())
         for (k2, bit) in r:
           if k2 == key and ((old >> bit) & 1) != ((new >> bit) & 1) and ((cur >> bit) & 1) != ((new >> bit) & 1):
             bad.append((label, key, bit)); return
